@@ -28,6 +28,8 @@ pub struct Ctx<M: AlignMarker> {
     pub guards: Vec<Option<GuardSlot>>,
     pub snaps: Vec<Option<(Snapshot<'static, Node<M>>, usize)>>,
     pub wsnaps: Vec<Option<(WeakSnapshot<'static, Node<M>>, usize)>>,
+    /// open bulk iterators: (iterator, object id, shares not yet yielded)
+    pub iters: Vec<Option<(circ::NewRcIter<Node<M>>, u32, usize)>>,
     pub world: &'static World<M>,
     pub local_addr: usize,
     pub in_tls: bool,
@@ -131,6 +133,7 @@ impl<M: AlignMarker> Ctx<M> {
             guards: (0..NGUARD).map(|_| None).collect(),
             snaps: (0..NSNAP).map(|_| None).collect(),
             wsnaps: (0..NWSNAP).map(|_| None).collect(),
+            iters: (0..2).map(|_| None).collect(),
             world,
             local_addr: 0,
             in_tls: false,
@@ -731,6 +734,71 @@ impl<M: AlignMarker> Ctx<M> {
                 shadow().release_strong(id, remaining as i64);
                 if c & 1 != 0 {
                     if let Some((g, _)) = self.guard_ref(d) {
+                        it.abort(g);
+                        return;
+                    }
+                }
+                drop(it);
+            }
+            K::IterOpen => {
+                let slot = c % 2;
+                if self.iters[slot].is_some() {
+                    return;
+                }
+                let count = [1usize, 2, 3, 5, 8][a % 5];
+                let take = b.min(count);
+                let (node, id, _rank) = self.new_node(Origin::NewIter(count as u32));
+                crate::alloc::capture_begin(circ::verif::block_layout::<Node<M>>().0);
+                let mut it = Rc::new_many_iter(node, count);
+                match crate::alloc::capture_end() {
+                    Some(addr) => {
+                        if !shadow().objs[id as usize].registered {
+                            self.register(id, addr, count as i64);
+                        }
+                    }
+                    None => return,
+                }
+                let mut remaining = count;
+                for _ in 0..take {
+                    user_yield();
+                    if let Some(rc) = it.next() {
+                        remaining -= 1;
+                        match self.free_rc_slot() {
+                            Some(s) => self.put_rc(s, rc),
+                            None => self.release_rc(rc),
+                        }
+                    }
+                }
+                sim().probe("bulk_iterator_left_open");
+                self.iters[slot] = Some((it, id, remaining));
+            }
+            K::IterNext => {
+                let slot = a % 2;
+                let Some((it, id, remaining)) = self.iters[slot].as_mut() else { return };
+                let r = it.next();
+                if r.is_some() != (*remaining > 0) {
+                    let det = format!("new_many_iter: next() with {} shares left returned {}", remaining, if r.is_some() { "a pointer" } else { "None" });
+                    sim().violation("C10", "new_many_iter-wrong-count", "new_many_iter-wrong-count", &det);
+                }
+                if let Some(rc) = r {
+                    *remaining -= 1;
+                    let want = *id;
+                    if shadow().obj_of_word(circ::verif::rc_word(&rc)) != Some(want) || rc.is_null() {
+                        sim().violation("C10", "new_many_iter-bad-pointer", "new_many_iter-bad-pointer", "iterator yielded a null/foreign pointer");
+                    }
+                    match self.free_rc_slot() {
+                        Some(s) => self.put_rc(s, rc),
+                        None => self.release_rc(rc),
+                    }
+                }
+            }
+            K::IterClose => {
+                let slot = a % 2;
+                let Some((it, id, remaining)) = self.iters[slot].take() else { return };
+                // the shares never yielded are released by abort/drop (release at invocation)
+                shadow().release_strong(id, remaining as i64);
+                if b != 0 {
+                    if let Some((g, _)) = self.guard_ref(c) {
                         it.abort(g);
                         return;
                     }
@@ -1382,6 +1450,13 @@ impl<M: AlignMarker> Ctx<M> {
 
     /// Drop everything the context still owns, in slot order.
     pub fn drop_all(&mut self) {
+        for i in 0..self.iters.len() {
+            if let Some((it, id, remaining)) = self.iters[i].take() {
+                user_yield();
+                shadow().release_strong(id, remaining as i64);
+                drop(it);
+            }
+        }
         for g in 0..NGUARD {
             if self.guards[g].is_some() {
                 user_yield();
